@@ -9,12 +9,14 @@
     Vocabulary.  Accounts and denoms are integers:
       accounts  0..999 ordinary addresses (a negative number = not a bech32 address),
                 [acct_module] the coinswap module account, [acct_feecol] the fee collector,
+                [acct_gov] the governance module account,
                 [pool_acct n] = escrow address of the pool whose LPT denom is "lpt-n";
       denoms    [std] = the standard denom, 1..999 other bank denoms, [lpt n] = "lpt-n". *)
 From Irismod Require Export Base.Prelude Base.Dec Base.Bank.
 
 Definition acct_module : Z := 100.
 Definition acct_feecol : Z := 101.
+Definition acct_gov : Z := 102.      (* x/gov module account = the authority of MsgUpdateParams (depinject.go) *)
 Definition pool_acct (n : Z) : Z := 1000 + n.
 Definition is_pool_acct (a : Z) : bool := 1000 <? a.
 Definition std : Z := 0.
@@ -188,7 +190,8 @@ Inductive msg :=
 | MAddUni (sender cp dtok exact min_liq deadline : Z)
 | MRemoveUni (sender cp dtok min_tok exact_liq deadline : Z)
 | MSend (from to d amt : Z)          (* bank MsgSend: donations and plain transfers *)
-| MBlock (dt : Z).                   (* next block, [dt] seconds later *)
+| MBlock (dt : Z)                    (* next block, [dt] seconds later *)
+| MUpdateParams (auth : Z) (p : params).   (* MsgUpdateParams *)
 
 (** [Keeper.Swap] behind [msgServer.SwapCoin] and [MsgSwapOrder.ValidateBasic] *)
 Definition exec_swap (s : state) (buy : bool) (sender rcpt din ain dout aout deadline : Z) : res (state * list Z) :=
@@ -328,6 +331,23 @@ Definition exec_send (s : state) (from to d amt : Z) : res (state * list Z) :=
   do s1 <- bsend s from to d amt;
   Ret (s1, []).
 
+(** types/params.go [Params.Validate]: fee in (0,1), creation fee a valid positive coin of at most
+    255 bits (fix "coinswap Params.Validate rejects a pool creation fee amount of more than 255 bits"),
+    tax rate in (0,1), unilateral fee in [0,1) *)
+Definition params_valid (p : params) : bool :=
+  (0 <? p_fee p) && (p_fee p <? P18)
+  && (0 <=? p_cdenom p) && (0 <? p_camt p) && (p_camt p <? 2 ^ 255)
+  && (0 <? p_tax p) && (p_tax p <? P18)
+  && (0 <=? p_ufee p) && (p_ufee p <? P18).
+
+(** [msgServer.UpdateParams] behind [MsgUpdateParams.ValidateBasic]: only the authority, only valid
+    parameters; [Keeper.SetParams] replaces the stored parameters *)
+Definition exec_update_params (s : state) (auth : Z) (p : params) : res (state * list Z) :=
+  do _ <- guard (0 <=? auth);
+  do _ <- guard (params_valid p);
+  do _ <- guard (auth =? acct_gov);
+  Ret (mkState (led s) (sup s) (pools s) (seq s) (now s) p, []).
+
 Definition exec (s : state) (m : msg) : res (state * list Z) :=
   match m with
   | MSwap buy sender rcpt din ain dout aout deadline => exec_swap s buy sender rcpt din ain dout aout deadline
@@ -337,6 +357,7 @@ Definition exec (s : state) (m : msg) : res (state * list Z) :=
   | MRemoveUni sender cp dtok min_tok exact_liq deadline => exec_remove_uni s sender cp dtok min_tok exact_liq deadline
   | MSend from to d amt => exec_send s from to d amt
   | MBlock dt => Ret (mkState (led s) (sup s) (pools s) (seq s) (now s + dt) (par s), [])
+  | MUpdateParams auth p => exec_update_params s auth p
   end.
 
 (** a message that fails changes nothing (the transaction's cache context is dropped) *)
